@@ -51,5 +51,21 @@ for f in sorted(glob.glob(str(V / "evidence" / "C*.json"))):
     rows.append(f"| {e['property_id']} | {c.get('discharged')}/{c.get('obligations')} | {c.get('evaluations')} ({c.get('distinct_nontrivial')}) | {e['wall_s']} |")
 block("evidence", "\n".join(rows))
 
+# per-property as-built summary
+claims = json.loads((V / "harness" / "claims.json").read_text())
+parts = []
+for pid in sorted(claims):
+    c = claims[pid]
+    thms = []
+    ef = V / "evidence" / f"{pid}.json"
+    if ef.exists():
+        thms = sorted(json.load(open(ef))["coverage"].get("theorems", {}))
+    parts.append(
+        f"#### {pid}\n\n*Method.* {c['technique']}.\n\n*What is shown.* {c['text']}\n\n"
+        f"*Assumed / limits.* {c['note']}\n\n*Theorems audited on the last run ({len(thms)}).* "
+        + ", ".join(f"`{t}`" for t in thms) + "\n"
+    )
+block("perproperty", "\n".join(parts))
+
 (V / "DESIGN.md").write_text(design)
 print("DESIGN.md tables rewritten")
